@@ -230,9 +230,9 @@ Proof.
     apply Z.eqb_eq in E; subst. constructor; [apply IH; auto|].
     rewrite Forall_forall in *. intros u Hu. apply Hall. apply (subseq_incl _ _ H u Hu).
 Qed.
-Lemma spec_step_KS K o : KS K -> refined_op o = true -> KS (spec_step K o).
+Lemma spec_step_KS K o : KS K -> refined_op o = true -> pre_op K o = true -> KS (spec_step K o).
 Proof.
-  intros Hk Hr t. destruct o; try discriminate; cbn [spec_step].
+  intros Hk Hr Hpre t. destruct o; try discriminate; cbn [spec_step].
   - destruct (list_eq_dec Z.eq_dec t (norm s)) as [->|Hne]; [intros _; apply norm_sorted|].
     rewrite spec_insert_other by auto. apply Hk.
   - destruct t as [|z t']; [intros _; constructor|].
@@ -240,6 +240,9 @@ Proof.
     destruct (subseq (z :: t') (norm s)) eqn:E; [intros _; eapply subseq_sorted; eauto; apply norm_sorted | apply Hk].
   - rewrite lookup_batch. destruct t as [|z [|z' t']]; try apply Hk.
     intros _. constructor; constructor.
+  - destruct vw as [|w0 vw']; [apply Hk|].
+    cbn [pre_op] in Hpre. apply andb_true_iff in Hpre as [_ Hok].
+    intro Hf. apply (spec_graph_klen (w0 :: vw') es Hok t Hf).
   - destruct (list_eq_dec Z.eq_dec t (norm s)) as [->|Hne]; [rewrite spec_remove_same; congruence|].
     rewrite spec_remove_other by auto. apply Hk.
   - rewrite spec_prune_filt_lookup. destruct (lookup K t) eqn:E; [|congruence]. intros _. apply Hk. congruence.
@@ -248,10 +251,12 @@ Proof.
   - apply Hk.
   - apply Hk.
 Qed.
-Lemma spec_run_KS : forall ops K, KS K -> forallb refined_op ops = true -> KS (fold_left spec_step ops K).
+Lemma spec_run_KS : forall ops K, KS K -> forallb refined_op ops = true -> ok_from K ops = true -> KS (fold_left spec_step ops K).
 Proof.
-  induction ops as [|o ops IH]; intros K Hk Hp; cbn [fold_left]; auto.
-  cbn [forallb] in Hp. apply andb_true_iff in Hp as [Hp1 Hp2]. apply IH; auto. apply spec_step_KS; auto.
+  induction ops as [|o ops IH]; intros K Hk Hp Hok; cbn [fold_left]; auto.
+  cbn [forallb] in Hp. apply andb_true_iff in Hp as [Hp1 Hp2].
+  cbn [ok_from] in Hok. apply andb_true_iff in Hok as [Hok Hok3]. apply andb_true_iff in Hok as [Hok1 Hok2].
+  apply IH; auto. apply spec_step_KS; auto.
 Qed.
 
 Lemma in_keys_lookup K t : In t (keys K) <-> lookup K t <> None.
